@@ -11,7 +11,7 @@ def build_all(prop, P):
     bins = []
     for b in P["binaries"]:
         bins.append(D.build(b["name"], b["sources"], b.get("libs", []), b.get("flavour", "asan"),
-                            b.get("extra_flags", ()), b.get("link_flags", ())))
+                            b.get("extra_flags", ()), b.get("link_flags", ()), b.get("hook_libs", ())))
     return bins
 
 
